@@ -103,8 +103,12 @@ pub struct Burst {
     pub prelude: Vec<(usize, String)>,
     /// the concurrent part: per connection its commands in order
     pub lines: Vec<(usize, Vec<String>)>,
-    /// invariants on the final state: (name, check)
     pub max_schedules: u64,
+    /// partial-order reduction: a step that touches only the connection's own
+    /// socket (reading its next line; the flush after its handler returned)
+    /// commutes with every step of every other connection, so where one is
+    /// enabled it is taken without branching
+    pub reduce: bool,
 }
 
 #[derive(Clone, Copy, Debug, PartialEq, Eq, Hash, PartialOrd, Ord)]
@@ -210,10 +214,13 @@ pub fn run_schedule(b: &Burst, choices: &[u16], want_readable: bool) -> RunResul
     let n = w.slots();
     let flags: Vec<Arc<WakeFlag>> = (0..n).map(|_| Arc::new(WakeFlag(AtomicBool::new(false)))).collect();
     let mut run: Vec<Run> = (0..n).map(|i| if w.conns[i].is_live() { Run::AtGate } else { Run::Done }).collect();
-    // put the burst on the wire
+    // the burst's lines are in flight: a line becomes readable only at the
+    // step that hands it to its connection (so that no other select! branch of
+    // that connection can race with an early look at the socket)
+    let mut pending: Vec<std::collections::VecDeque<String>> = vec![std::collections::VecDeque::new(); n];
     for (s, ls) in &b.lines {
         for l in ls {
-            w.write_line(*s, l);
+            pending[*s].push_back(l.clone());
         }
     }
     let mut last: Option<usize> = None;
@@ -228,7 +235,7 @@ pub fn run_schedule(b: &Burst, choices: &[u16], want_readable: bool) -> RunResul
                     if !w.conns[i].is_live() {
                         continue;
                     }
-                    if w.conns[i].avail > 0 {
+                    if !pending[i].is_empty() {
                         enabled.push(Action::Socket(i));
                     }
                     // refresh info to see a pending KILL notice
@@ -255,6 +262,20 @@ pub fn run_schedule(b: &Burst, choices: &[u16], want_readable: bool) -> RunResul
             }
             break;
         }
+        if b.reduce {
+            // a purely local step forms a singleton persistent set
+            let local = enabled.iter().position(|a| match a {
+                Action::Socket(i) => !enabled.contains(&Action::Kill(*i)),
+                // after its last command a quitting connection goes on to the
+                // teardown (a lock step), which the flush flag cannot tell apart
+                Action::Continue(i) => verif::flushing(*i) && !verif::conn_info(*i).map_or(true, |inf| inf.quit),
+                Action::Kill(_) => false,
+            });
+            if let Some(p) = local {
+                let a = enabled[p];
+                enabled = vec![a];
+            }
+        }
         let mut running_first = false;
         if let Some(l) = last {
             if let Some(pos) = enabled.iter().position(|a| a.conn() == l) {
@@ -279,7 +300,11 @@ pub fn run_schedule(b: &Burst, choices: &[u16], want_readable: bool) -> RunResul
         let i = act.conn();
         match act {
             Action::Socket(_) => {
-                w.conns[i].avail -= 1;
+                let line = pending[i].pop_front().unwrap();
+                w.write_line(i, &line);
+                if w.conns[i].avail > 0 {
+                    w.conns[i].avail -= 1;
+                }
                 verif::select(w.ctl);
                 verif::direct(i, Directive::Socket);
             }
